@@ -9,6 +9,7 @@
 
 mod c09;
 mod c13;
+mod c16;
 mod framework;
 mod model;
 mod refdigest;
@@ -142,6 +143,7 @@ fn main() {
     let code = match prop.as_str() {
         "C09" => dispatch(&c09::C09, &opts, replay_file),
         "C13" => dispatch(&c13::C13, &opts, replay_file),
+        "C16" => dispatch(&c16::C16, &opts, replay_file),
         _ => {
             eprintln!("pkgsim: unknown or unclaimed property {}", prop);
             2
